@@ -7,7 +7,7 @@ from store import *
 
 BASE = dict(CIFS='{"c1"}', CODES='{"a", "A", "bad"}', NAMES='{"_x", "_X", "_y", "bad"}', CATS='{"NULL", "", "k"}',
             VALS='{"u", "s1"}', PVALS='{"s1", "s2"}', CSLOTS="MCCSlots2", LSLOTS="MCLSlots2", MaxId=2, MaxDepth=2, MaxNl=2,
-            MaxLast=2, MaxNames=2, MaxPkt=2, MaxHist=5, MaxLoopsPerCont=2, SCRIPT="NoScript")
+            MaxLast=2, MaxNames=2, MaxPkt=2, MaxHist=5, MaxLoopsPerCont=2, SCRIPT="NoScript", FOREIGN="FALSE")
 
 INVS = ["DataModel", "ItrDeliversOnce"]
 PROPS = ["ScalarCategoryStable", "OtherCifUnchanged", "FailedCallAtomic", "AbortReverts", "CloseCommits", "ItrTouchesOnlyCurrent"]
@@ -21,7 +21,7 @@ def make_cfg(params, emit=True):
         lines.append("  %s = %s" % (k, p[k]))
     for k in ("CSLOTS", "LSLOTS", "SCRIPT"):
         lines.append("  %s <- %s" % (k, p[k]))
-    for k in ("MaxId", "MaxDepth", "MaxNl", "MaxLast", "MaxNames", "MaxPkt", "MaxHist", "MaxLoopsPerCont"):
+    for k in ("MaxId", "MaxDepth", "MaxNl", "MaxLast", "MaxNames", "MaxPkt", "MaxHist", "MaxLoopsPerCont", "FOREIGN"):
         lines.append("  %s = %s" % (k, p[k]))
     lines += ["  NormC <- MCNormC", "  ValidC <- MCValidC", "  NormN <- MCNormN", "  ValidN <- MCValidN", "VIEW View"]
     if emit:
@@ -209,11 +209,13 @@ def c04(tier, replay=None):
     if tier == "quick":
         plans = [("main-d4", dict(MaxHist=4), "states"),
                  ("nested-d2", dict(SCRIPT="ScriptNest", MaxHist=2, MaxId=3, CODES='{"a", "b", "B", "bad"}'), "states"),
+                 ("twin-d2", dict(SCRIPT="ScriptTwin", MaxHist=2, MaxId=2, CODES='{"a", "b"}', NAMES='{"_x", "_y", "bad"}', CATS='{"NULL", "", "k"}', MaxNames=1, MaxPkt=1), "states"),
                  ("two-cifs-d4", dict(CIFS='{"c1", "c2"}', MaxHist=4, CSLOTS="MCCSlots2", NAMES='{"_x", "_X", "bad"}', CODES='{"a", "A"}', CATS='{"NULL", ""}', MaxNames=1, MaxPkt=1), "states")]
     else:
         plans = [("main-d6", dict(MaxHist=6), "states"),
                  ("nested-d4", dict(SCRIPT="ScriptNest", MaxHist=4, MaxId=4, MaxDepth=3, CODES='{"a", "b", "B", "bad"}'), "states"),
                  ("loop-d3", dict(SCRIPT="ScriptLoop", MaxHist=3, MaxLast=4, NAMES='{"_x", "_X", "_y", "_z", "bad"}', VALS='{"u", "s1", "L"}'), "states"),
+                 ("twin-d3", dict(SCRIPT="ScriptTwin", MaxHist=3, MaxId=2, CODES='{"a", "b"}', NAMES='{"_x", "_y", "bad"}', CATS='{"NULL", "", "k"}', MaxNames=1, MaxPkt=1), "states"),
                  ("two-cifs-d5", dict(CIFS='{"c1", "c2"}', MaxHist=5, NAMES='{"_x", "_X", "bad"}', CODES='{"a", "A"}', CATS='{"NULL", ""}', MaxNames=1, MaxPkt=1), "states")]
     for name, params, mode in plans:
         cov, oc, jobs = run_config(rep, binary, name, params, mode, rnd=rnd)
@@ -232,11 +234,16 @@ def c05(tier, replay=None):
     # three-name loops and three-entry packets put the offending element first / middle / last
     if tier == "quick":
         plans = [("offender-d4", dict(MaxHist=4, MaxNames=3, MaxPkt=2, CODES='{"a", "A"}', CATS='{"", "k"}', CSLOTS="MCCSlots1", LSLOTS="MCLSlots1", VALS='{"s1"}', PVALS='{"s1"}'), "edges"),
-                 ("loop1-d2", dict(SCRIPT="ScriptLoop1", MaxHist=2, MaxLast=3, MaxNames=2, MaxPkt=3, NAMES='{"_x", "_y", "_z", "bad"}', VALS='{"s1"}', PVALS='{"s1", "s2"}'), "edges")]
+                 ("loop1-d2", dict(SCRIPT="ScriptLoop1", MaxHist=2, MaxLast=3, MaxNames=2, MaxPkt=3, NAMES='{"_x", "_y", "_z", "bad"}', VALS='{"s1"}', PVALS='{"s1", "s2"}'), "edges"),
+                 # refused and accepted calls on another loop inside an open iterator's transaction
+                 ("busy-d2", dict(SCRIPT="ScriptBusy", FOREIGN="TRUE", MaxHist=2, MaxLast=3, MaxNames=2, MaxPkt=2, NAMES='{"_x", "_y", "_z", "_w", "bad"}', VALS='{"s1"}', PVALS='{"s1", "s2"}'), "edges"),
+                 ("busy1-d2", dict(SCRIPT="ScriptBusy1", FOREIGN="TRUE", MaxHist=2, MaxLast=3, MaxNames=2, MaxPkt=2, NAMES='{"_x", "_y", "_z", "_w", "bad"}', VALS='{"s1"}', PVALS='{"s1", "s2"}'), "edges")]
     else:
         plans = [("offender-d5", dict(MaxHist=5, MaxNames=3, MaxPkt=2, CODES='{"a", "A"}', CATS='{"", "k"}', CSLOTS="MCCSlots1", LSLOTS="MCLSlots1", VALS='{"s1"}', PVALS='{"s1"}'), "edges"),
                  ("loop-d3", dict(SCRIPT="ScriptLoop", MaxHist=3, MaxLast=4, MaxNames=2, MaxPkt=3, NAMES='{"_x", "_X", "_y", "_z", "bad"}', VALS='{"s1"}', PVALS='{"s1", "s2"}'), "edges"),
-                 ("main-d5", dict(MaxHist=5), "edges")]
+                 ("main-d5", dict(MaxHist=5), "edges"),
+                 ("busy-d3", dict(SCRIPT="ScriptBusy", FOREIGN="TRUE", MaxHist=3, MaxLast=3, MaxNames=2, MaxPkt=2, NAMES='{"_x", "_y", "_z", "_w", "bad"}', VALS='{"s1"}', PVALS='{"s1", "s2"}'), "edges"),
+                 ("busy1-d3", dict(SCRIPT="ScriptBusy1", FOREIGN="TRUE", MaxHist=3, MaxLast=3, MaxNames=2, MaxPkt=2, NAMES='{"_x", "_y", "_z", "_w", "bad"}', VALS='{"s1"}', PVALS='{"s1", "s2"}'), "edges")]
     for name, params, mode in plans:
         cov, oc, jobs = run_config(rep, binary, name, params, mode, rnd=rnd)
         covs.append(cov); opcov.update(oc); alljobs += jobs
